@@ -32,6 +32,9 @@ RULE = (
 RULE += (
     " Sub-check 'shared': one object schema with generated sibling names reached through 2-3 references of one document (property, items, anyOf member, additionalProperties; optionally the root itself a reference) via the documented loader - every occurrence must keep the JSON names and map them alike."
 )
+RULE += (
+    ' Round 9: every pooled name also enters a class through `required` WITHOUT a declaration: the JSON name must be recorded, the attribute must be the one of the declared route, an instance must build.'
+)
 ASSUMPTIONS = [
     "identifier/keyword predicates are Python's own (str.isidentifier, keyword.iskeyword, compile())",
     "the exhaustive part uses _parse_attribute_name/_title_format as the fast path; the end-to-end path goes through parse_element",
@@ -100,6 +103,20 @@ def end_to_end(name):
                 out.append("item-access-does-not-hold-the-value")
         except Exception as exc:  # noqa: BLE001
             out.append("item-access-fails:" + type(exc).__name__)
+    # the other way a name enters a class: listed in `required` without being declared
+    undeclared = observe.safe_parse({"type": "object", "title": "Holder", "required": [name]})
+    if undeclared[0] != "ok":
+        out.append("required-only:parse-" + undeclared[0] + ":" + str(undeclared[1]))
+    else:
+        uprops = list(undeclared[1].properties.items())
+        if len(uprops) != 1 or uprops[0][1].source != name:
+            out.append("required-only:json-name-not-recorded")
+        elif uprops[0][0] != attr:
+            out.append("required-only:attribute-name-differs-from-the-declared-route")
+        else:
+            ugot = observe.verdict(undeclared[1], {name: 1})
+            if ugot[0] != "ok":
+                out.append("required-only:instance-" + ugot[0])
     try:
         text = serialize_python(cls)
     except Exception as exc:  # noqa: BLE001
